@@ -266,3 +266,8 @@ func Run(h func()) (prunedPath bool) {
 // Exits runs f and reports whether it terminated the process (os.Exit,
 // log.Fatal*). Only the symbolic executor can observe that; natively f just runs.
 func Exits(f func()) bool { f(); return false }
+
+// Protect makes the fields of the struct ptr points to write-protected under
+// the executor's write monitor (no-op natively); Unprotect lifts it.
+func Protect(name string, ptr interface{}) {}
+func Unprotect(ptr interface{})            {}
